@@ -102,7 +102,7 @@ func runC07(seed int64, count int) {
 					excVals = append(excVals, ex)
 				}
 				recs[id] = rec{vk, vid, val}
-				hs = append(hs, newProbe(mask, p))
+				hs = append(hs, mkProbe(rng, mask, p))
 				ids = append(ids, fmt.Sprint(id))
 				emit("C07 hdl %d %d %d %d %s:%d", id, mask, fwd, pan, vk, vid)
 			}
